@@ -113,10 +113,10 @@ func (h *hist) apply(op string) string {
 			}
 		}
 		return fmt.Sprintf("%s(%s@%d)", op, id, seat)
-	case "rebuy", "rebuy-part":
+	case "rebuy", "rebuy-part", "topup":
 		var c []string
 		for _, p := range t.State.PlayerStates {
-			if p.Bankroll == 0 || op == "rebuy-part" && p.IsParticipated {
+			if op == "topup" || p.Bankroll == 0 || op == "rebuy-part" && p.IsParticipated {
 				c = append(c, p.PlayerID)
 			}
 		}
